@@ -69,14 +69,14 @@ PROP_FILES += ["PersimVerif/Props/C06Model.lean"]
 # source translator (DESIGN.md 3.2): the two extraction loops (and the statements that feed them: Step 2 of bottleneck, the solver
 # call and sum of wasserstein) are re-translated from the source text on every run and proved equal to the models' `extractRows` /
 # `rowsOf`, which Props/C06Model.lean is about
-SRC_KEYS = ("bottleneck_search", "wasserstein_assign")
+SRC_KEYS = ("bottleneck", "bottleneck_search", "wasserstein", "wasserstein_assign")   # (the matrix files: what precedes the loops)
 for _k in SRC_KEYS:
     PROP_FILES += [f for f in py2lean.prop_files(_k) if f not in PROP_FILES]
-TRUSTED = list(TRUSTED) + [py2lean.trusted_note(_k) for _k in SRC_KEYS]
+TRUSTED = list(TRUSTED) + [py2lean.trusted_note(_k) for _k in ("bottleneck_search", "wasserstein_assign")]
 
 
 def pre_build(ctx):
-    """source translator: regenerate Generated/SrcBottleneckSearch.lean, SrcWassersteinAssign.lean from PERSIM_ROOT's source"""
+    """source translator: regenerate Generated/SrcBottleneck*.lean, SrcWasserstein*.lean from PERSIM_ROOT's source"""
     py2lean.pre_build(ctx, SRC_KEYS)
 
 
@@ -807,4 +807,4 @@ MANIFEST = {
             "assignment captured from the solver inside the real call.",
     "technique": "Lean-proved certificate checker run on every returned matching + theorems about the extraction loops",
 }
-MANIFEST["note"] += " " + " ".join(py2lean.manifest_note(_k) for _k in SRC_KEYS)
+MANIFEST["note"] += " " + " ".join(py2lean.manifest_note(_k) for _k in ("bottleneck_search", "wasserstein_assign"))
